@@ -161,7 +161,8 @@ def strip_call(c):
 
 def execute(calls, cfg, lab, rng_seed, flags=()):
     """Execute the call stream in configuration cfg; returns ({id: reply}, sites or None).
-    fresh : a new process per batch of `cfg['batch']` calls (1 = a process per call)
+    fresh : a new process per batch of `cfg['batch']` calls (1 = a cold process per call); with cfg['fork'] = k every call is
+            served by its own child process, forked from one of k idle workers that have only imported the package
     long  : ONE process serves a seeded shuffle of all calls, then a second, differently shuffled pass; the reply
             kept for a call is the one of the SECOND pass (its history: every other call and itself), the first
             pass is compared as well
@@ -172,11 +173,18 @@ def execute(calls, cfg, lab, rng_seed, flags=()):
     out, sites = {}, None
     want_sites = "--instrument" in flags
     if mode == "fresh":
-        b = cfg.get("batch", 1)
-        groups = [calls[i:i + b] for i in range(0, len(calls), b)]
+        if cfg.get("fork"):
+            # every call in a child forked from an idle worker (post-import state, nothing served); `fork` workers in parallel
+            k = max(1, cfg["fork"])
+            groups = [calls[i::k] for i in range(k) if calls[i::k]]
+            verb = "forkcall"
+        else:
+            b = cfg.get("batch", 1)
+            groups = [calls[i:i + b] for i in range(0, len(calls), b)]
+            verb = "call"
 
         def one(g):
-            return run_worker([{"cmd": "call", "call": strip_call(c)} for c in g], cfg, lab, flags)
+            return run_worker([{"cmd": verb, "call": strip_call(c)} for c in g], cfg, lab, flags)
         with ThreadPoolExecutor(vlib.NCPU) as ex:
             for reps in ex.map(one, groups):
                 for r in reps:
@@ -234,7 +242,7 @@ def view(reply, ts_keys, extra_mask=None):
 
 
 # ---------------------------------------------------------------------------------------------
-# known finding F36: default object repr (memory address) of ConstraintChain inside a HolographicValue
+# known finding C06N1: default object repr (memory address) of ConstraintChain inside a HolographicValue
 # ---------------------------------------------------------------------------------------------
 
 def _holo_paths(text):
@@ -275,8 +283,8 @@ def _holo_paths(text):
 
 
 def default_repr_of_constraint_chain(call):
-    """class predicate of F36 (input-based): the call stringifies a HolographicValue carrying a constraint chain —
-    (a) validate / write / Validator API with a schema name, where the document holds such a value in a field of the
+    """class predicate of C06N1 (input-based): the call stringifies a HolographicValue carrying a constraint chain —
+    (a) validate / write / Validator API with a schema, where the document holds such a value in a field of the
         block named like the schema (the field's value is routed and hashed as sha256(str(value))), or
     (b) eject / project to markdown of a document holding such a value anywhere.
     Returns the list of affected (block, field) pairs, or [] when the call is outside the class."""
@@ -292,6 +300,8 @@ def default_repr_of_constraint_chain(call):
         return []
     if tool == "eject" and a.get("format") == "markdown":
         return hits
+    if tool == "api" and call.get("fn") == "validate_inline":
+        return hits          # the schema is given inline; its name is whatever the schema text says
     schema = a.get("schema")
     if tool in ("validate", "write") or (tool == "api" and call.get("fn") == "validate_api"):
         if isinstance(schema, str):
@@ -299,16 +309,16 @@ def default_repr_of_constraint_chain(call):
     return []
 
 
-def f36_mask(paths):
+def n1_mask(paths):
     fields = {f"{b}.{k}" for b, k in paths} | {k for _b, k in paths}
 
     def m(env):
         for lk in ("routing_log", "routing"):
             for ent in env.get(lk) or []:
                 if isinstance(ent, dict) and (ent.get("source_path") in fields or str(ent.get("source_path", "")).split(".")[-1] in fields):
-                    ent["value_hash"] = "<F36>"
+                    ent["value_hash"] = "<C06N1>"
         if isinstance(env.get("output"), str):
-            env["output"] = ADDR_RE.sub(" object at 0x<F36>", env["output"])
+            env["output"] = ADDR_RE.sub(" object at 0x<C06N1>", env["output"])
     return m
 
 
@@ -327,7 +337,7 @@ def configs_for(ctx, locs):
             for i, s in enumerate(SEEDS) for j, c in enumerate(CWDS) for l in locs for m in MODES]
     for f in full:
         if f["mode"] == "fresh":
-            f["batch"] = 100
+            f["fork"] = 2
     if ctx.thorough:
         import random
         random.Random(606).shuffle(full)       # a diverse first wave; the order is fixed
@@ -337,7 +347,7 @@ def configs_for(ctx, locs):
         for i, s in enumerate(SEEDS):
             for j, c in enumerate(CWDS):
                 for m in [MODES[idx % 3]] + ([MODES[(idx + 1) % 3]] if (i + j) % 2 == 0 else []):
-                    sub.append({"seed": s, "cwd": c, "locale": locs[(idx + len(sub)) % len(locs)], "mode": m, "home": (i + j) % 2, "batch": 25})
+                    sub.append({"seed": s, "cwd": c, "locale": locs[(idx + len(sub)) % len(locs)], "mode": m, "home": (i + j) % 2, "fork": 1})
                 idx += 1
         # a diverse first wave (all modes, several seeds and cwds); the order is fixed
         import random
@@ -345,10 +355,10 @@ def configs_for(ctx, locs):
         return sub
     return [{"seed": "1", "cwd": "root", "locale": "C", "mode": "long", "home": 1},
             {"seed": "4242", "cwd": "decoy", "locale": locs[-1], "mode": "gather", "home": 0},
-            {"seed": "random", "cwd": "empty", "locale": "C", "mode": "fresh", "batch": 25, "home": 1},
+            {"seed": "random", "cwd": "empty", "locale": "C", "mode": "fresh", "fork": 1, "home": 1},
             {"seed": "random", "cwd": "decoy", "locale": "C.UTF-8", "mode": "long", "home": 0},
             {"seed": "1", "cwd": "empty", "locale": locs[-1], "mode": "gather", "home": 1},
-            {"seed": "4242", "cwd": "root", "locale": "C.UTF-8", "mode": "fresh", "batch": 25, "home": 0}]
+            {"seed": "4242", "cwd": "root", "locale": "C.UTF-8", "mode": "fresh", "fork": 1, "home": 0}]
 
 
 def cfg_name(c):
@@ -438,19 +448,19 @@ def _run(ctx, drv, lab, ts_keys):
             ctx.notes.append(f"witness of {f['id']} is no longer inside its class predicate")
     lap("known-findings")
     # ---- reference run: a fresh process for every call ---------------------------------------------------
-    # "a fresh process per call (or per small batch)": one process per call for the first 40 (quick) / 200 (thorough)
-    # calls, batches of 5 beyond — process start-up (1 s of imports) is what the reference run costs
-    solo = 200 if ctx.thorough else 40
+    # a fresh process for EVERY call: a cold start (1 s of imports) for the first 24 (quick) / 100 (thorough) calls, for the
+    # others a child forked from an idle worker that has imported the package and served nothing
+    solo = 100 if ctx.thorough else 24
     ref, _ = execute(calls[:solo], ref_cfg, lab, 0)
     if len(calls) > solo:
-        more, _ = execute(calls[solo:], dict(ref_cfg, batch=5), lab, 0)
+        more, _ = execute(calls[solo:], dict(ref_cfg, fork=vlib.NCPU if ctx.thorough else 4), lab, 0)
         ref.update(more)
     ref_view = {}
     kf_paths = {}
     for c in calls:
         paths = default_repr_of_constraint_chain(c)
         kf_paths[c["id"]] = paths
-        ref_view[c["id"]] = view(ref[c["id"]][0], ts_keys, f36_mask(paths) if paths else None)
+        ref_view[c["id"]] = view(ref[c["id"]][0], ts_keys, n1_mask(paths) if paths else None)
         try:
             env = json.loads(ref[c["id"]][0]["out"])
         except Exception:
@@ -480,15 +490,22 @@ def _run(ctx, drv, lab, ts_keys):
 
     def one_cfg(i_cfg):
         i, cfg = i_cfg
-        flags = ("--snap",) if cfg["mode"] != "fresh" else ()
+        # state snapshots around every call cost more than the call: every gather configuration (one snapshot per chunk)
+        # and every second long-lived configuration take them
+        flags = ("--snap",) if cfg["mode"] == "gather" or (cfg["mode"] == "long" and (i % 2 == 0 or not ctx.thorough)) else ()
         return cfg, execute(calls, cfg, lab, f"{ctx.seed}-{i}", flags)[0]
+    # the instrumented run (correspondence 2 and 3 below) is independent of the matrix: start it now, join it later
+    icfg = {"seed": "random", "cwd": "decoy", "locale": "C", "mode": "long", "home": 0}
+    sub = calls if (ctx.thorough or ctx.widen > 1) else calls[: max(60, len(calls) // 2)]
+    instr_pool = ThreadPoolExecutor(1)
+    instr_future = instr_pool.submit(execute, sub, icfg, lab, f"{ctx.seed}-instr", ("--instrument",))
     # waves: once a wave has produced a failing input there is nothing more to learn from further configurations
-    wave = 12 if ctx.thorough else 6
+    wave = 16 if ctx.thorough else 6
     todo = list(enumerate(cfgs))
     ran, n0 = 0, len(ctx.failures)
     while todo and len(ctx.failures) == n0:
         batch, todo = todo[:wave], todo[wave:]
-        with ThreadPoolExecutor(max(2, vlib.NCPU // 2)) as ex:
+        with ThreadPoolExecutor(vlib.NCPU) as ex:
             results = list(ex.map(one_cfg, batch))
         ran += len(batch)
         for cfg, out in results:
@@ -509,9 +526,8 @@ def _run(ctx, drv, lab, ts_keys):
                                            "impl": "its deep structural digest changed while the call was served", "view": "module/class/tool-instance state"})
     ctx.extra["dynamic_state_changes"] = [list(k) + [len(v)] for k, v in sorted(state_changes.items())]
     # ---- correspondence 2: every iteration over a set object that really happens is known to the analysis --------------
-    icfg = {"seed": "random", "cwd": "decoy", "locale": "C", "mode": "long", "home": 0}
-    sub = calls if (ctx.thorough or ctx.widen > 1) else calls[: max(60, len(calls) // 2)]
-    iout, mon = execute(sub, icfg, lab, f"{ctx.seed}-instr", ("--instrument",))
+    iout, mon = instr_future.result()
+    instr_pool.shutdown()
     sites = (mon or {}).get("sites") or []
     envsites = (mon or {}).get("envsites") or []
     set_sites = [s for s in sites if s[4] > 0]
@@ -534,15 +550,15 @@ def _run(ctx, drv, lab, ts_keys):
     for c in sub:     # the instrumented code must behave like the plain code
         for rep in iout[c["id"]]:
             paths = kf_paths[c["id"]]
-            if view(rep, ts_keys, f36_mask(paths) if paths else None) != ref_view[c["id"]]:
+            if view(rep, ts_keys, n1_mask(paths) if paths else None) != ref_view[c["id"]]:
                 ctx.failures.append({"case": strip_call(c), "why_class": f"differs:{c['tool']}:instrumented",
                                      "why": "masked envelope differs between the reference and the instrumented long-lived run (seed=random, cwd=decoy, locale=C)",
                                      "configuration": icfg, "reference": ref_view[c["id"]][:3000],
-                                     "observed": view(rep, ts_keys, f36_mask(paths) if paths else None)[:3000]})
+                                     "observed": view(rep, ts_keys, n1_mask(paths) if paths else None)[:3000]})
     lap("instrumented")
     ctx.extra["calls"] = len(calls)
-    ctx.extra["calls_in_F36_class"] = sum(1 for v in kf_paths.values() if v)
-    # classify failures against the open findings' classes (the F36 normaliser above already confines what may differ)
+    ctx.extra["calls_in_C06N1_class"] = sum(1 for v in kf_paths.values() if v)
+    # classify failures against the open findings' classes (the C06N1 normaliser above already confines what may differ)
     ctx.failures = dedupe_failures(ctx.failures)
 
 
@@ -556,11 +572,11 @@ def compare_cfg(ctx, cfg, out, calls, ref, ref_view, kf_paths, ts_keys, state_ch
         for k, rep in enumerate(reps):
             case = {"call": c["id"], "cfg": name, "pass": k}
             ctx.case(case, nontrivial='"E_INPUT"' not in ref[c["id"]][0]["out"])
-            got = view(rep, ts_keys, f36_mask(paths) if paths else None)
+            got = view(rep, ts_keys, n1_mask(paths) if paths else None)
             if paths:
                 raw_equal = view(rep, ts_keys) == view(ref[c["id"]][0], ts_keys)
                 if not raw_equal:
-                    ctx.known_hits["F36"] = ctx.known_hits.get("F36", 0) + 1
+                    ctx.known_hits["C06N1"] = ctx.known_hits.get("C06N1", 0) + 1
             if got != ref_view[c["id"]]:
                 ctx.failures.append({
                     "case": strip_call(c), "why_class": f"differs:{c['tool']}:{cfg['mode']}",
@@ -588,7 +604,7 @@ def replay(ctx, lab, ts_keys):
               effects_calls.gen_calls(random.Random(f"c06-{data.get('seed', 0)}"), 200, [], {"ref": lab.frozen_ref, "text": FROZEN_TEXT})]
     ref_cfg = {"seed": "0", "cwd": "repo", "locale": "C.UTF-8", "mode": "fresh", "batch": 1, "home": 0}
     paths = default_repr_of_constraint_chain(case)
-    msk = f36_mask(paths) if paths else None
+    msk = n1_mask(paths) if paths else None
     want = view(run_worker([{"cmd": "call", "call": case}], ref_cfg, lab)[0], ts_keys, msk)
     rng = random.Random(f"replay-{data.get('seed', 0)}")
     if cfg["mode"] == "fresh":
